@@ -38,7 +38,27 @@ EXPRS = {
     "group.items.value": (("group",), {"group": True, "items": True}),
     "child.child.value": (("child", "child"), {"child": True}),
     "child.children.items.value": (("child", "children"), {"child": True, "children": True, "items": True}),
+    # links that admit objects lacking the observed trait (hook-up can fail half way), on two levels
+    "anybox:anykids:items:value": (("anybox", "anykids"), {"anybox": False, "anykids": False, "items": False}),
+    "anybox.anykids.items.value": (("anybox", "anykids"), {"anybox": True, "anykids": True, "items": True}),
+    "anykids.items.value": (("anykids",), {"anykids": True, "items": True}),
+    # links matched by a metadata filter
+    "+tracked:items:value": (("tkids",), {"tkids": False, "items": False}),
+    "+tracked.items.value": (("tkids",), {"tkids": True, "items": True}),
+    "+tracked2.value": (("tchild",), {"tchild": True}),
+    # a link whose default is a constant that is itself an observable object
+    "dchild.value": (("dchild",), {"dchild": True}),
 }
+
+
+def tainted(root):
+    """the sub-graph below root currently hangs on an object whose hook-up failed: what is tracked there is unspecified
+    (the failure was reported to the caller); everything that is NOT reachable must still be silent"""
+    failed = G.FAILED.get(id(root), [])
+    cands = [root.anybox, root.anykids, root]
+    if isinstance(root.anybox, G.N):
+        cands.append(root.anybox.anykids)
+    return any(c is f for c in cands for f in failed)
 
 
 def harness_factory(expr, k, muts):
@@ -66,6 +86,10 @@ def harness_factory(expr, k, muts):
         root.children = [pool[1], pool[1]]        # the same object twice, from the start
         root.mapping = {"a": pool[0]}
         keep = [root] + pool             # detached objects stay alive: they must simply not notify
+        if steps[0] == "dchild":
+            keep.append(G.SHARED)
+        G.FAILED[id(root)], G.DETACHED[id(root)] = [], []
+        G.STASH.pop(id(root), None)
         events = []
         root.observe(lambda e: events.append(e), expr)
         trace = []
@@ -74,7 +98,13 @@ def harness_factory(expr, k, muts):
             before_nodes = G.all_nodes(root, keep)
             keep.extend(x for x in before_nodes if not any(x is y for y in keep))
             events.clear()
-            G.apply_mutation(ex, step, root, pool, mut, fresh)
+            was_tainted = tainted(root)
+            try:
+                G.apply_mutation(ex, step, root, pool, mut, fresh)
+            except Exception as e:
+                # only the aftermath of an earlier, reported hook-up failure may raise
+                if not ex.check(was_tainted or tainted(root), "a mutation of a healthy observed graph does not raise (%s)" % type(e).__name__):
+                    return {"trace": trace + [mut]}
             trace.append(mut)
             # container-mutation events on the first link
             first = steps[0]
@@ -94,17 +124,23 @@ def harness_factory(expr, k, muts):
                 ex.check(all(type(e).__name__ != "TraitChangeEvent" or e.name == "value" for e in events),
                          "reassigning a ':' link stays silent")
         # ---- probe every node ever seen ----
-        nodes = G.all_nodes(root, keep)
-        reach = G.reachable(root, steps)
+        nodes = G.all_nodes(root, keep + G.DETACHED[id(root)])
+        reach = [r for r in G.reachable(root, steps) if isinstance(r, G.N)]
+        unspecified = tainted(root)
         for node in nodes:
             events.clear()
             node.value += 1
             want = 1 if any(node is r for r in reach) else 0
+            if want and unspecified:
+                continue
             got = [e for e in events if type(e).__name__ == "TraitChangeEvent" and e.name == "value"]
             ex.check(len(got) == want, "a change on a node calls the handler exactly once iff the node is currently reachable along the expression")
             if got:
                 ex.check(got[0].object is node and got[0].new == node.value, "the event identifies the object and trait that actually changed")
         ex.check(errors == [], "no observer raised")
+        G.FAILED.pop(id(root), None)
+        G.DETACHED.pop(id(root), None)
+        G.STASH.pop(id(root), None)
         return {"trace": trace, "reachable": sorted(r.name for r in reach)}
 
     return harness
@@ -181,8 +217,20 @@ def obligations(tier, build):
                     "slice_subset", "remove_first"]
         elif first == "mapping":
             muts = ["map_set", "map_del", "map_same", "append", "child=", "read_default"]
+        elif first == "anybox":
+            muts = ["anybox=good", "anybox=broken", "anybox=None", "box_append", "box_append_alien", "read_default"]
+        elif first == "anykids":
+            muts = ["anykids_good", "anykids_mixed", "read_default", "child="]
+        elif first == "tkids":
+            muts = ["tkids=equal", "tkids_append", "stale_append", "read_default", "child="]
+        elif first == "tchild":
+            muts = ["tchild=", "read_default", "child="]
+        elif first == "dchild":
+            muts = ["read_default", "dchild=", "dchild=shared", "del_dchild", "child="]
         else:
             muts = ["set_add", "set_remove", "append", "child=None", "read_default"]
+        if expr == "children:items:value":
+            muts = muts + ["children=equal", "children_append", "stale_append"]
         obs.append(Obligation("track/%s/k=%d" % (expr, K), harness_factory(expr, K, muts), env=G.env, stubs=STUBS,
                               bounds={"expression": expr, "history length": K, "mutations": muts,
                                       "list positions / *= factor": "unbounded Int (factor <= 2 for non-empty lists)"},
